@@ -31,7 +31,7 @@ ASSUMPTIONS = ["the reference cycle detector (DFS on python ints) is correct; it
                "DRFNet is driven through a stand-in rpy2 backend (no R in the sandbox)"]
 EXHAUSTIVE = {"quick": True, "thorough": True}
 SHARDS = {"quick": 16, "thorough": 16}
-SOFT_LIMIT = {"quick": 200, "thorough": 1500}
+SOFT_LIMIT = {"quick": 1200, "thorough": 5400}      # generous wall-clock watchdogs (a loaded machine must not cut a workload short); normal run times are in the evidence
 REQUIRED_FUNCS = ["sempler/utils.py:topological_ordering", "sempler/utils.py:is_dag",
                   "sempler/lganm.py:LGANM.__init__", "sempler/anm.py:ANM.__init__",
                   "sempler/semi.py:DRFNet.__init__"]
